@@ -10,7 +10,7 @@ import (
 )
 
 var c20Ops = []string{"builder", "new", "append"}
-var c20Fails = []string{"err", "eof", "ueof"}
+var c20Fails = []string{"err", "eof", "ueof", "terr"}
 
 // c20Script delivers k bytes in the given chunking and then fails (k<32) or keeps delivering (k>=32).
 func c20Script(k, chunking int, fail string) []vm.ReadStep {
@@ -43,7 +43,7 @@ func c20Script(k, chunking int, fail string) []vm.ReadStep {
 	return s
 }
 
-const c20Enum = 3 * 3 * 33 * 5 // ops x failure kinds x k in [0,32] x deliveries (4 chunkings of a supplied source + the default source)
+const c20Enum = 3 * 4 * 33 * 5 // ops x failure kinds (error, EOF, ErrUnexpectedEOF, an error that calls itself temporary) x k in [0,32] x deliveries (4 chunkings of a supplied source + the default source)
 
 // injectEntropyFaults makes the entropy source of some drawing operations of an
 // existing history fail after k < 32 bytes.
@@ -56,7 +56,7 @@ func injectEntropyFaults(r *rand.Rand, p *vm.Plan) {
 		}
 		stream := make([]byte, 40)
 		r.Read(stream)
-		op.Ent = &vm.Entropy{Bytes: hex.EncodeToString(stream), Script: c20Script(r.Intn(32), r.Intn(4), c20Fails[r.Intn(3)])}
+		op.Ent = &vm.Entropy{Bytes: hex.EncodeToString(stream), Script: c20Script(r.Intn(32), r.Intn(4), c20Fails[r.Intn(4)])}
 		n++
 	}
 	p.Note = "history with entropy faults"
@@ -78,7 +78,7 @@ func genC20Special(r *rand.Rand) *vm.Plan {
 		}
 		// the same 32 bytes again, then the source fails
 		replay := append(append([]byte{}, first...), stream(16)...)
-		b.add(vm.Op{K: "attenuate", A: t, Blk: blkp(g.Block(2, 1, 1)), Ent: &vm.Entropy{Bytes: hex.EncodeToString(replay), Script: []vm.ReadStep{{Kind: "all"}, {Kind: c20Fails[r.Intn(3)]}}}, Out: b.slot()})
+		b.add(vm.Op{K: "attenuate", A: t, Blk: blkp(g.Block(2, 1, 1)), Ent: &vm.Entropy{Bytes: hex.EncodeToString(replay), Script: []vm.ReadStep{{Kind: "all"}, {Kind: c20Fails[r.Intn(4)]}}}, Out: b.slot()})
 		b.p.Note = "replayed seed then failure"
 		return b.p
 	}
@@ -88,7 +88,7 @@ func genC20Special(r *rand.Rand) *vm.Plan {
 	for i := 0; i < good; i++ {
 		ent.Script = append(ent.Script, vm.ReadStep{Kind: "all"})
 	}
-	ent.Script = append(ent.Script, c20Script(k, r.Intn(4), c20Fails[r.Intn(3)])...)
+	ent.Script = append(ent.Script, c20Script(k, r.Intn(4), c20Fails[r.Intn(4)])...)
 	var rid *uint32
 	if r.Intn(2) == 0 {
 		rid = u32p(uint32(r.Intn(3)))
@@ -131,12 +131,12 @@ func genC20(r *rand.Rand, run int, tier string) *vm.Plan {
 		x /= 5
 		k = x % 33
 		x /= 33
-		fail = c20Fails[x%3]
-		x /= 3
+		fail = c20Fails[x%4]
+		x /= 4
 		opk = c20Ops[x%3]
 		b.p.Note = "enum"
 	} else {
-		opk, fail, k, chunking = c20Ops[r.Intn(3)], c20Fails[r.Intn(3)], r.Intn(34), r.Intn(5)
+		opk, fail, k, chunking = c20Ops[r.Intn(3)], c20Fails[r.Intn(4)], r.Intn(34), r.Intn(5)
 		b.p.Note = "random"
 	}
 	stream := make([]byte, 40)
@@ -187,7 +187,7 @@ func genC20(r *rand.Rand, run int, tier string) *vm.Plan {
 func init() {
 	register(&Spec{
 		ID: "C20", Level: "fault_enumeration", Quick: c20Enum + 300, Thorough: c20Enum + 60000,
-		Rule: "fault enumeration: every operation that draws randomness (Builder.Build with WithRNG, biscuit.New(rng,..), Append(rng,..)) x failure kind (error, EOF, ErrUnexpectedEOF) x EVERY k in [0,32] bytes delivered before the failure (k=32: no failure) x 5 deliveries of the prefix (a supplied source read at once, byte by byte, in two halves, with interleaved (0,nil) reads; and NO supplied source, the simulated process-wide default crypto/rand.Reader being read instead) = 1485 cases, each followed by a retry with a healthy source and a Seal with a source that fails on first touch; then random cases over the same space with longer histories. non-trivial = the failure actually fired during the draw or a token was built and its next secret checked (distinct by plan hash)",
+		Rule: "fault enumeration: every operation that draws randomness (Builder.Build with WithRNG, biscuit.New(rng,..), Append(rng,..)) x failure kind (error, EOF, ErrUnexpectedEOF, a persistent error whose Temporary() and Timeout() say true) x EVERY k in [0,32] bytes delivered before the failure (k=32: no failure) x 5 deliveries of the prefix (a supplied source read at once, byte by byte, in two halves, with interleaved (0,nil) reads; and NO supplied source, the simulated process-wide default crypto/rand.Reader being read instead) = 1980 cases, each followed by a retry with a healthy source and a Seal with a source that fails on first touch; then random cases over the same space with longer histories. non-trivial = the failure actually fired during the draw or a token was built and its next secret checked (distinct by plan hash)",
 		Gen: genC20,
 		Oracles: func(m *vm.VM) []vm.Oracle {
 			return []vm.Oracle{vm.Common{Prop: "C20"}, vm.EntropyOracle{}, vm.ImmutOracle{Prop: "C08"}}
@@ -195,7 +195,7 @@ func init() {
 		Nontrivial: func(res *vm.Result) bool {
 			return res.Probes["entropy_failure_during_draw"] > 0 || res.Probes["token_with_healthy_entropy"] > 0 || res.Faults["entropy_failure"] > 0
 		},
-		ExtraCoverage: map[string]interface{}{"enumerated_cases": c20Enum, "exhaustive_in": "k = number of entropy bytes delivered before the failure (0..32), for each drawing operation, failure kind and delivery; runs 0..1484 of every check"},
+		ExtraCoverage: map[string]interface{}{"enumerated_cases": c20Enum, "exhaustive_in": "k = number of entropy bytes delivered before the failure (0..32), for each drawing operation, failure kind and delivery; runs 0..1979 of every check"},
 		Real:          realAll, Simulated: []string{simAll[2]}, Assumptions: assumeAll[1:2],
 	})
 }
